@@ -529,8 +529,31 @@ pub fn run(ctx: &Ctx, prop: &str) {
         let (qs, m, bits) = decode(&rsc, idx);
         Some(regex_case(&mk, prop, &qs, m, &bits))
     });
+    // newline splitting: all strings over {a, LF, CR} up to length 7, plus random bytes
+    let mut soff = vec![];
+    let mut stotal = 0u64;
+    for len in 0..=7u32 {
+        soff.push((len, stotal));
+        stotal += 3u64.pow(len);
+    }
+    ctx.run_stream("split-exhaustive", stotal, true, |idx| {
+        let (len, base) = *soff.iter().rev().find(|(_, b)| *b <= idx).unwrap();
+        let mut r = idx - base;
+        let mut v = vec![];
+        for _ in 0..len {
+            v.push([b'a', b'\n', b'\r'][(r % 3) as usize]);
+            r /= 3;
+        }
+        Some(split_case(prop, &v))
+    });
     let nrand = if ctx.thorough { 1_000_000 } else { 20_000 };
     let seed = ctx.seed;
+    ctx.run_stream("split-random", nrand / 10, false, |idx| {
+        let mut rng = Rng::fork(seed, 3, idx);
+        let len = rng.range(0, 40);
+        let v: Vec<u8> = (0..len).map(|_| if rng.chance(1, 4) { b'\n' } else { rng.below(256) as u8 }).collect();
+        Some(split_case(prop, &v))
+    });
     ctx.run_stream("real-kinds-random", nrand, false, |idx| {
         let mk = maker();
         let mut rng = Rng::fork(seed, 1, idx);
@@ -541,6 +564,41 @@ pub fn run(ctx: &Ctx, prop: &str) {
         let mut rng = Rng::fork(seed, 2, idx);
         Some(big_case(&mk, prop, &mut rng))
     });
+}
+
+/// `split_at_newline` is crate-private: it is observed through `DiffTool::new(vec![]).diff(out)`, whose
+/// single unexpected-lines entry lists every line with its content
+fn split_case(prop: &str, out: &[u8]) -> CaseRec {
+    let mut fails = vec![];
+    let r = guarded(|| DiffTool::new(vec![]).diff(out));
+    let impl_out = match r {
+        Ok(Ok(d)) => {
+            let mut lines: Vec<Vec<u8>> = vec![];
+            for l in &d.lines {
+                if let DiffLine::UnexpectedLines { lines: ls } = l {
+                    for (i, c) in ls {
+                        if *i != lines.len() {
+                            fails.push(("C02:line-index".to_string(), format!("line index {i} at position {}", lines.len())));
+                        }
+                        lines.push(c.clone());
+                    }
+                }
+            }
+            if lines.concat() != out {
+                fails.push(("C02:lines-do-not-concatenate".to_string(), "the lines of the result do not concatenate back to the output".to_string()));
+            }
+            if lines.iter().any(|l| l.is_empty() || l[..l.len() - 1].contains(&b'\n')) {
+                fails.push(("C02:line-shape".to_string(), "a line is empty or holds an inner newline".to_string()));
+            }
+            if lines.is_empty() { "-".to_string() } else { lines.iter().map(|l| l.len().to_string()).collect::<Vec<_>>().join(",") }
+        }
+        Ok(Err(_)) => "error".to_string(),
+        Err(p) => {
+            fails.push(("C02:crash".to_string(), p));
+            "crash".to_string()
+        }
+    };
+    CaseRec { op: format!("split {}", hex(out)), impl_out, oracle_fail: filter_fails(prop, fails), nontrivial: out.contains(&b'\n') && out.len() >= 2, tags: vec!["split".into()] }
 }
 
 /// replay: `<quants> <m> <bits>` through the bits rule; prints the real result and the oracle verdicts
